@@ -79,7 +79,8 @@ fn entry_strategy() -> impl Strategy<Value = EnvEntry> {
         prop_oneof![2 => Just(Sc::All), 3 => Just(Sc::Build), 3 => Just(Sc::Launch), 2 => Just(Sc::Process("web".into()))],
         any::<u16>(),
         any::<u16>(),
-        prop_oneof![Just(b"/explicit".to_vec()), Just(vec![]), Just(b":".to_vec()), Just(b";".to_vec()), Just(b"/a:/b".to_vec())],
+        // "<L>/x" is replaced by the layer's own <layer>/x path when the case is laid out
+        prop_oneof![3 => Just(b"/explicit".to_vec()), 1 => Just(vec![]), 2 => Just(b":".to_vec()), 1 => Just(b";".to_vec()), 2 => Just(b"/a:/b".to_vec()), 1 => Just(b"<L>/bin".to_vec()), 1 => Just(b"<L>/lib".to_vec()), 1 => Just(b"<L>/bin:/usr/bin".to_vec()), 1 => Just(b"<L>/include".to_vec()), 1 => Just(b"<L>/pkgconfig".to_vec())],
     )
         .prop_map(|(scope, b, n, value)| EnvEntry { scope, beh: BEHS[pick_idx(b, 5)], name: VARS[pick_idx(n, 5)].as_bytes().to_vec(), value })
 }
@@ -110,10 +111,28 @@ fn case_json(assign: [PK; 4], variant: usize, entries: &[EnvEntry], cycles: usiz
     json!({"assign": assign.iter().map(|k| PKS.iter().position(|x| x == k).unwrap()).collect::<Vec<_>>(), "variant": variant, "entries": entries_to_json(entries), "cycles": cycles})
 }
 
-fn check(ctx: &Ctx, scratch: &Path, assign: [PK; 4], variant: usize, entries: &[EnvEntry], cycles: usize) -> Check {
-    let root = scratch.join(format!("c-{:016x}", hash_of(&case_json(assign, variant, entries, cycles).to_string())));
+fn subst(v: &[u8], layer: &Path) -> Vec<u8> {
+    let l = layer.as_os_str().as_bytes();
+    let mut out = vec![];
+    let mut i = 0;
+    while i < v.len() {
+        if v[i..].starts_with(b"<L>") {
+            out.extend_from_slice(l);
+            i += 3;
+        } else {
+            out.push(v[i]);
+            i += 1;
+        }
+    }
+    out
+}
+
+fn check(ctx: &Ctx, scratch: &Path, assign: [PK; 4], variant: usize, entries_in: &[EnvEntry], cycles: usize) -> Check {
+    let root = scratch.join(format!("c-{:016x}", hash_of(&case_json(assign, variant, entries_in, cycles).to_string())));
     let _ = fsutil::force_remove(&root);
     let layer = root.join("layers/my layer");
+    let entries_owned: Vec<EnvEntry> = entries_in.iter().map(|e| EnvEntry { value: subst(&e.value, &layer), ..e.clone() }).collect();
+    let entries = &entries_owned[..];
     let outside = root.join("outside");
     std::fs::create_dir_all(&layer).unwrap();
     std::fs::create_dir_all(&outside).unwrap();
@@ -131,8 +150,14 @@ fn check(ctx: &Ctx, scratch: &Path, assign: [PK; 4], variant: usize, entries: &[
     let before_all = fsutil::snapshot(&root);
     let r = (|| -> Check {
         let read = LayerEnv::read_from_layer_dir(&layer).map_err(|e| Fail::new("C10:read-failed", e.to_string()))?;
+        let mut starts = env0s();
+        let mut own = EnvMap::new();
+        for (v, d) in [("PATH", "bin"), ("LD_LIBRARY_PATH", "lib"), ("LIBRARY_PATH", "lib"), ("CPATH", "include"), ("PKG_CONFIG_PATH", "pkgconfig")] {
+            own.insert(v.as_bytes().to_vec(), [layer.join(d).as_os_str().as_bytes(), b":/usr/local"].concat());
+        }
+        starts.push(own);
         for q in [Sc::All, Sc::Build, Sc::Launch, Sc::Process("web".into()), Sc::Process("other".into())] {
-            for e0 in env0s() {
+            for e0 in starts.clone() {
                 ctx.eval();
                 let got = from_env(&read.apply(q.to_libcnb(), &to_env(&e0)));
                 let want = ref_apply(entries, &implicit, &q, &e0);
@@ -162,6 +187,25 @@ fn check(ctx: &Ctx, scratch: &Path, assign: [PK; 4], variant: usize, entries: &[
             }
             cur = LayerEnv::read_from_layer_dir(&layer).map_err(|e| Fail::new("C10:read-failed", e.to_string()))?;
         }
+        // read -> insert further explicit entries through the public API -> write: the env directories must hold exactly the
+        // union (later inserts win), nothing derived from the implicit entries
+        if variant % 2 == 1 {
+            let extra: Vec<EnvEntry> = entries.iter().take(3).enumerate().map(|(i, e)| EnvEntry { scope: if i % 2 == 0 { Sc::Build } else { Sc::Launch }, beh: if i % 2 == 0 { Beh::Append } else { Beh::Prepend }, name: VARS[(i + variant) % VARS.len()].as_bytes().to_vec(), value: [b"/inserted-".to_vec(), e.name.clone()].concat() }).chain(std::iter::once(EnvEntry { scope: Sc::Build, beh: Beh::Prepend, name: b"PATH".to_vec(), value: b"/inserted-after-read".to_vec() })).collect();
+            for e in &extra {
+                cur.insert(e.scope.to_libcnb(), e.beh.to_libcnb(), os(&e.name), os(&e.value));
+            }
+            cur.write_to_layer_dir(&layer).map_err(|e| Fail::new("C10:write-failed", e.to_string()))?;
+            let mut all = entries.to_vec();
+            all.extend(extra.iter().cloned());
+            let want: std::collections::BTreeMap<Vec<u8>, Vec<u8>> = render(&all);
+            let got = env_snapshot(&layer);
+            if got != want {
+                let added: Vec<String> = got.keys().filter(|k| !want.contains_key(*k)).map(|k| fsutil::show_path(k)).collect();
+                let sig = if !added.is_empty() { "C10:implicit-entry-persisted" } else { "C10:env-dirs-differ-after-insert" };
+                return Err(Fail::new(sig, format!("after read -> insert -> write: unexpected files {added:?}; {} files on disk, {} expected", got.len(), want.len())));
+            }
+            // restore the explicit files for the final outside-content comparison
+        }
         // everything outside the env directories untouched
         let after_all = fsutil::snapshot(&root);
         let d: Vec<String> = fsutil::diff(&before_all, &after_all, 50)
@@ -181,7 +225,7 @@ fn nontrivial(assign: [PK; 4], entries: &[EnvEntry]) -> bool {
 }
 
 pub fn run(ctx: &Ctx) {
-    ctx.set_rule("EXHAUSTIVE: all 6^4 = 1296 assignments of {absent, directory, file, symlink->dir (relative inside / absolute outside), symlink->file, dangling symlink} to bin, lib, include, pkgconfig; each combined with K generated sets (K=6 quick, 60 thorough) of 0..6 explicit entries on PATH, LD_LIBRARY_PATH, LIBRARY_PATH, CPATH, PKG_CONFIG_PATH (all behaviours incl. own delimiter, scopes all/build/launch/process) laid out on disk by the harness; applied for scopes all, build, launch, process web, process other to three starting envs (all defined / none / empty strings); then 1..4 read->write cycles. Oracle: reference apply with implicit prepend (':' only when the previous value is non-empty) for build (5 variables) and launch (2 variables) iff the path is a directory following links; env-directory file set after every cycle equals the initial one; nothing else changes. Non-trivial: some special path is a directory or symlink->dir AND an explicit entry exists on its variable; distinct = hash of (assignment, entries).");
+    ctx.set_rule("EXHAUSTIVE: all 6^4 = 1296 assignments of {absent, directory, file, symlink->dir (relative inside / absolute outside), symlink->file, dangling symlink} to bin, lib, include, pkgconfig; each combined with K generated sets (K=6 quick, 60 thorough) of 0..6 explicit entries on PATH, LD_LIBRARY_PATH, LIBRARY_PATH, CPATH, PKG_CONFIG_PATH (all behaviours incl. own delimiter, scopes all/build/launch/process) laid out on disk by the harness; applied for scopes all, build, launch, process web, process other to three starting envs (all defined / none / empty strings); (values also the layer's own <layer>/bin etc.), also to a starting env whose path lists begin with the layer's own directories; then 1..4 read->write cycles and, in every other case, read -> insert further entries -> write. Oracle: reference apply with implicit prepend (':' only when the previous value is non-empty) for build (5 variables) and launch (2 variables) iff the path is a directory following links; env-directory file set after every cycle equals the initial one; nothing else changes. Non-trivial: some special path is a directory or symlink->dir AND an explicit entry exists on its variable; distinct = hash of (assignment, entries).");
     ctx.set_exhaustive(true);
     ctx.extra("exhaustive_subspace", json!("the 1296 path-kind assignments; explicit entry sets are sampled"));
     let scratch = Scratch::new("c10");
